@@ -410,4 +410,140 @@ func TestC11(t *testing.T) {
 	r := hx.Start(t, "C11")
 	defer r.Finish(t)
 	hx.Rapid(r, t, "fault_sequences", r.N(4000, 40000), genC11, c11Prop(t, r))
+	creps := r.N(2, 10)
+	hx.Enum(r, t, "survivor_of_collision_fails", 0, func(yield func(c11Coll) bool) {
+		for rep := 0; rep < creps; rep++ {
+			for _, ld := range []bool{false, true} {
+				for _, end := range []string{"fin", "rst", "cease"} {
+					for _, via := range []string{"out", "in"} {
+						for _, tm := range [][2]int{{50, 50}, {1000, 5000}, {200, 100}} {
+							if !yield(c11Coll{LocalDominant: ld, End: end, Via: via, IdleHoldMs: tm[0], ConnRetryMs: tm[1]}) {
+								return
+							}
+						}
+					}
+				}
+			}
+		}
+	}, c11CollProp(t, r, "survivor_of_collision_fails"))
+}
+
+// ---- the fault hits the survivor of a connection collision
+
+// Both connections reach OpenConfirm, the collision is resolved (the loser gets
+// its Cease), and then the surviving connection fails before it is
+// Established. Nothing has been damped: the peer must be dialling again within
+// the usual bound, serve an inbound connection, and establish.
+type c11Coll struct {
+	LocalDominant bool   `json:"local_dominant"`
+	End           string `json:"end"` // fin rst cease
+	IdleHoldMs    int    `json:"idle_hold_ms"`
+	ConnRetryMs   int    `json:"conn_retry_ms"`
+	Via           string `json:"via"` // how the well-behaved remote comes back: out (accepts the dial) or in
+}
+
+func c11CollProp(t *testing.T, r *hx.Run, sub string) func(c c11Coll) hx.Verdict {
+	return func(c c11Coll) hx.Verdict {
+		r.SetCurrent(sub, c)
+		v := hx.Verdict{Class: fmt.Sprintf("localdominant=%v/%s/via=%s", c.LocalDominant, c.End, c.Via)}
+		v.NT = fmt.Sprintf("%+v", c)
+		localID, remoteID := "10.0.0.1", uint32(0x0a000002)
+		if c.LocalDominant {
+			localID = "10.0.0.3"
+		}
+		p := world.PeerSpec{Remote: "10.0.0.2", LocalAS: 64512, RemoteAS: 64513, Hold: 90, IdleHoldMs: c.IdleHoldMs, ConnRetryMs: c.ConnRetryMs}
+		idle, retry := time.Duration(c.IdleHoldMs)*time.Millisecond, time.Duration(c.ConnRetryMs)*time.Millisecond
+		var dev *hx.Dev
+		fail := func(key, f string, a ...any) {
+			if dev == nil {
+				dev = hx.Devf(key, f, a...)
+			}
+		}
+		o := world.Run(t, func() {
+			w, err := world.New(localID, nil)
+			if err != nil {
+				fail("setup", "%v", err)
+				return
+			}
+			defer func() {
+				if dev != nil {
+					dev.Msg += "\n" + w.Dump()
+				}
+				w.Finish()
+			}()
+			w.Net.SetPlans(p.RemoteAddr(), memnet.DialPlan{Kind: memnet.Accept}, memnet.DialPlan{Kind: memnet.Refuse})
+			if err := w.AddPeer(p); err != nil {
+				fail("setup", "%v", err)
+				return
+			}
+			w.Serve()
+			w.Settle()
+			out := w.DialedConn(p.Remote, 0)
+			in := w.Inbound(p.Remote, "10.0.0.1")
+			w.Settle()
+			if out == nil || len(out.Snapshot().Bytes()) == 0 || len(in.Snapshot().Bytes()) == 0 {
+				fail("setup", "both connections should be in OpenSent")
+				return
+			}
+			winner, loser := in, out
+			if c.LocalDominant {
+				winner, loser = out, in
+			}
+			loser.RemoteSend(world.RemoteOpen(p, loser, 90, remoteID).Frame(), nil)
+			w.Settle()
+			winner.RemoteSend(world.RemoteOpen(p, winner, 90, remoteID).Frame(), nil)
+			w.Settle()
+			if !loser.Snapshot().LocalClosed || winner.Snapshot().LocalClosed {
+				fail("setup-collision", "collision not resolved as expected: loser closed=%v, winner closed=%v", loser.Snapshot().LocalClosed, winner.Snapshot().LocalClosed)
+				return
+			}
+			// the survivor fails in OpenConfirm
+			switch c.End {
+			case "rst":
+				winner.RemoteReset()
+			case "cease":
+				winner.RemoteSend(wire.Notif{Code: 6, Sub: 4}.Frame(), nil)
+				w.Settle()
+				winner.RemoteClose()
+			default:
+				winner.RemoteClose()
+			}
+			t0 := w.Net.Since()
+			w.Settle()
+			// the remote is well behaved from now on
+			limit := idle + retry + 50*time.Millisecond
+			var cn *memnet.Conn
+			if c.Via == "out" {
+				w.Net.SetPlans(p.RemoteAddr(), memnet.DialPlan{Kind: memnet.Accept})
+				n0 := len(w.Net.Dials())
+				for k := 0; k < 4 && cn == nil; k++ {
+					if !w.Net.WaitDials(n0+1+k, limit) {
+						break
+					}
+					w.Settle()
+					cn = w.Net.Dials()[n0+k].Conn // (an attempt launched before the plan change was refused)
+				}
+				if cn == nil {
+					fail("no-reconnect", "the survivor of the collision failed at %v; the remote accepts connections since then, no accepted dial attempt within idle-hold + connect-retry (%v) each", t0, limit)
+					return
+				}
+			} else {
+				cn = w.Inbound(p.Remote, "10.0.0.1")
+				w.Settle()
+				if len(cn.Snapshot().Bytes()) == 0 {
+					fail("inbound-refused", "the survivor of the collision failed at %v; an inbound connection right afterwards is not served (closed=%v)", t0, cn.Snapshot().LocalClosed)
+					return
+				}
+			}
+			world.Handshake(w, p, cn, 90, remoteID)
+			if w.Sessions(p.Remote) != 1 || cn.Snapshot().LocalClosed {
+				fail("not-established", "after the collision and the loss of its survivor a full handshake does not establish (OnEstablished x%d, closed=%v)", w.Sessions(p.Remote), cn.Snapshot().LocalClosed)
+			}
+		})
+		if b := o.Bad(); b != "" {
+			fail("wedge", "%s", b)
+		}
+		v.Dev = dev
+		return v
+	}
 }
